@@ -249,6 +249,47 @@ def compile_batch(traces, d):
     return res
 
 
+def fits32(members):
+    """Every intermediate value of every member stays within 32 bits (TLC integers): the stated bound of the domain."""
+    vals = []
+
+    def walk(e):
+        o = e["op"]
+        if o == "lit":
+            v = e["v"]
+        elif o == "ref":
+            v = vals[e["v"] - 1]
+        elif o == "neg":
+            v = -walk(e["a"])
+        elif o in ("pos", "paren"):
+            v = walk(e["a"])
+        else:
+            a, b = walk(e["a"]), walk(e["b"])
+            if o == "+":
+                v = a + b
+            elif o == "-":
+                v = a - b
+            elif o == "*":
+                v = a * b
+            else:
+                if b == 0:
+                    v = 0            # undefined in C++: judged by the specification, magnitude irrelevant
+                else:
+                    q = abs(a) // abs(b)
+                    v = q if (a < 0) == (b < 0) else -q
+        if abs(v) >= 2 ** 31 - 1:
+            raise OverflowError
+        return v
+    try:
+        for m in members:
+            vals.append(walk(m["e"]) if m["has"] else (vals[-1] + 1 if vals else 0))
+            if abs(vals[-1]) >= 2 ** 31 - 1:
+                return False
+    except OverflowError:
+        return False
+    return True
+
+
 def defined(members):
     """C++ meaning defined (no division by zero)?  Used only to keep undefined
     enums out of the *compiled* batch; the verdict is TLA+'s."""
@@ -368,6 +409,11 @@ def run(tier):
                 else:
                     k["cout"][-1] = {"has": True, "ts": [{"t": "num", "v": 77777}]}
                 controls.append(k)
+        # values (intermediate ones included) beyond 32 bits are outside the stated domain (and TLC's integers)
+        nbig = sum(1 for t in traces if not fits32(t["members"]))
+        traces = [t for t in traces if fits32(t["members"])]
+        controls = [t for t in controls if fits32(t["members"])]
+        c.part("domain", excluded_beyond_32_bits=nbig)
         keep = ("members", "cout", "fout", "corder", "forder", "cxx")
         alltr = [{k: t[k] for k in keep} for t in traces + controls]
         verdicts, st = validate_traces("Trace_EnumValues", "Trace_EnumValues", alltr, shard=5000)
